@@ -6,6 +6,8 @@ from . import parts
 def run(tier):
     ck = common.Check('C10', tier)
     res = parts.run_parts(ck, tier, ir_parts=('ir_growth',), rule_filter=lambda p, x: x.rule.startswith('R10'))
+    from .. import irrules
+    irrules.run_canaries(ck, {'ir_growth': [('R10.1', 'canary_realloc_when_fits'), ('R10.2', 'canary_grow_unchecked')]})
     r = res.get('ir_growth', [])
     ck.floor('complete paths judged', sum(x['res']['judged_paths'] for x in r), 8000 if tier == 'quick' else 80000)
     ck.floor('erase-family entry points', sum(x['res']['erase_roots'] for x in r), 60 if tier == 'quick' else 600)
